@@ -34,6 +34,9 @@ type c10Case struct {
 	// without thread-sync must then concern the loader only, and its flag word must not inherit the earlier one.)
 	// LogGroup: the policy also carries a group with the log action (the flag word must not depend on the policy).
 	LogGroup bool `json:"log_group,omitempty"`
+	// Uid: 0 or 65534 (an unprivileged load without no_new_privs is refused by the kernel: nothing is claimed then, but
+	// it must not turn into a successful load with another flag word)
+	Uid int `json:"uid,omitempty"`
 	// EnosysFault: seccomp(2) fails with ENOSYS in the whole process (outer sandbox / old kernel).
 	EnosysFault bool `json:"enosys_fault"`
 }
@@ -57,6 +60,9 @@ func drawC10(t *rapid.T) c10Case {
 		c.EnosysFault, c.Strace = true, false
 	}
 	c.LogGroup = rapid.IntRange(0, 3).Draw(t, "logGroup") == 0
+	if rapid.IntRange(0, 3).Draw(t, "unprivileged") == 0 {
+		c.Uid, c.Strace = 65534, false
+	}
 	var n int
 	switch k := rapid.IntRange(0, 9).Draw(t, "nClass"); {
 	case k < 4:
@@ -155,7 +161,7 @@ func checkC10(raw json.RawMessage) (ev.Result, error) {
 	if c.DelayUs > 0 && !c.Divergent && !c.EnosysFault {
 		job.Steps[2] = kjob.Step{Op: "sleep", N: c.DelayUs}
 	}
-	rr, err := kchild.Run(job, kchild.RunOpts{Strace: c.Strace, Timeout: 45e9})
+	rr, err := kchild.Run(job, kchild.RunOpts{Strace: c.Strace, Timeout: 45e9, Uid: c.Uid})
 	if err != nil {
 		return ev.Result{}, ev.Inconclusivef("%v", err)
 	}
@@ -169,7 +175,10 @@ func checkC10(raw json.RawMessage) (ev.Result, error) {
 	}
 	ld := le[0]
 	tsync := c.Flag&1 != 0
-	res := ev.Result{Classes: []string{fmt.Sprintf("flag:%d", c.Flag), fmt.Sprintf("gomaxprocs:%d", c.GOMAXPROCS)}}
+	res := ev.Result{Classes: []string{fmt.Sprintf("flag:%d", c.Flag), fmt.Sprintf("gomaxprocs:%d", c.GOMAXPROCS), fmt.Sprintf("uid:%d", c.Uid)}}
+	if c.Uid != 0 && !c.NNP {
+		res.Classes = append(res.Classes, "unprivileged-without-no-new-privs")
+	}
 	if priorSynced {
 		if pl := rr.Find(2, "load"); len(pl) != 1 || !pl[0].Nil {
 			return res, ev.Inconclusivef("the earlier thread-sync load did not succeed")
@@ -274,6 +283,14 @@ func checkC10(raw json.RawMessage) (ev.Result, error) {
 		} else {
 			if d || !modeOK(st.Seccomp, 0) {
 				return res, fmt.Errorf("thread-sync NOT requested, but pre-existing thread %d (state %q) was touched: Seccomp=%d, probe denied=%v", r.Idx, r.State, st.Seccomp, d)
+			}
+			// untouched includes the no_new_privs bit (the earlier thread-sync load and the injected fault hand the bit
+			// to every thread themselves: nothing to tell then)
+			if st.NNP != 0 && !priorSynced && !c.EnosysFault {
+				return res, fmt.Errorf("thread-sync NOT requested (flags %#x, no_new_privs requested: %v), but pre-existing thread %d (state %q) now has no_new_privs=%d", c.Flag, c.NNP, r.Idx, r.State, st.NNP)
+			}
+			if c.NNP {
+				res.Classes = append(res.Classes, "no-new-privs-of-other-threads-checked")
 			}
 		}
 	}
